@@ -108,14 +108,34 @@ func (hc *histClient) hello2(kind string, a int, useReal bool) (rec []byte, real
 		}
 	case "hello2-alpn":
 		i := inner.Find(echbox.ExtALPN)
+		// another list: other names, the same names in another order, or the
+		// same octets cut into names differently ("h2","http/1.1" -> "h2,http/1.1")
+		other := []string{"changed"}
+		if cur := inner.ALPN(); len(cur) > 0 {
+			switch rng.IntN(3) {
+			case 1:
+				if len(cur) > 1 {
+					other = []string{strings.Join(cur, ",")}
+				} else if parts := strings.Split(cur[0], ","); len(parts) > 1 {
+					other = parts
+				} else {
+					other = []string{cur[0], cur[0]}
+				}
+			case 2:
+				if len(cur) > 1 && cur[0] != cur[len(cur)-1] {
+					other = slices.Clone(cur)
+					slices.Reverse(other)
+				}
+			}
+		}
 		switch {
 		case i >= 0 && (i < from || i >= to):
-			inner.Exts[i] = echbox.ALPNExt([]string{"changed"})
+			inner.Exts[i] = echbox.ALPNExt(other)
 		case i >= 0:
 			// ALPN is part of the compressed run: change the outer copy too
-			inner.Exts[i] = echbox.ALPNExt([]string{"changed"})
+			inner.Exts[i] = echbox.ALPNExt(other)
 			if o := outer.Find(echbox.ExtALPN); o >= 0 {
-				outer.Exts[o] = echbox.ALPNExt([]string{"changed"})
+				outer.Exts[o] = echbox.ALPNExt(other)
 			}
 		default:
 			inner.Exts = append(inner.Exts, echbox.ALPNExt([]string{"added"}))
